@@ -1197,6 +1197,11 @@ def documents(features=ALL_FEATURES, exclude=(), max_items=14, classes=("article
             ncol = draw(st.integers(1, 3))
             rows = [[draw(inlines(1, False, True, 1)) for _ in range(ncol)]
                     for _ in range(draw(st.integers(1, 3)))]
+            # a row may have one empty cell (an empty top-left corner, a gap), never all of them
+            if ncol >= 2:
+                for row in rows:
+                    if draw(st.integers(0, 3)) == 0:
+                        row[draw(st.sampled_from([0, 0, ncol - 1, draw(st.integers(0, ncol - 1))]))] = []
             b = {"k": "tabular", "rows": rows}
         elif k == "env":
             b = {"k": "env", "name": draw(st.sampled_from(["quote", "center", "flushleft"])),
